@@ -235,6 +235,9 @@ func GenRoute(r *rand.Rand, pool []rmodel.Segment, c Cfg) *rmodel.Route {
 		last.Optional = true
 	} else if n > 1 && r.Intn(15) == 0 {
 		*last = rmodel.Segment{} // "/a/" – empty final segment
+		if r.Intn(3) == 0 {
+			last.Optional = true // "/a/?" – the optional segment has no element: long form "/a/", short form "/a"
+		}
 	}
 	return rt
 }
